@@ -6,7 +6,7 @@
    every byte of the output was accepted."
 
    The theorems are about [render] of Model/Interp.v (the soyhtml tree walker
-   AFTER the repair of defect I4, notes/pending/C12-escaper-write-errors.diff:
+   AFTER the repair of defect I4, /repo 2f90372 = notes/applied/C12-escaper-write-errors.diff:
    htmlEscapeString returns the first write error and evalPrint checks it), for
    EVERY configuration, bundle, template, data, fuel and writer automaton
    [(cl, bl)]: [cl = Some k] fails the (k+1)-th Write call, [bl = Some b] accepts
@@ -17,7 +17,8 @@
 
    [surfaced o] is [o = Err e_write \/ o = Crash e_index]; the second case is
    the panic of Registry.LineNumber while the write error is being reported
-   (position outside the recorded source: defect I9, the subject of C06) -- the
+   (position outside the recorded source: duplicate template names, I9, or the
+   message-part positions of notes/applied/C12-msg-part-positions.diff; the subject of C06) -- the
    caller does not get a nil error in that case either. *)
 From Soy Require Import Model.Bytes Model.Num Model.Values Model.Outcome Model.Ast
   Model.Interp Spec.Writer Proofs.InterpLogic Proofs.WriterProofs.
